@@ -19,7 +19,7 @@ Recursion: every call inside a call-graph cycle passes, in some integer
 parameter, that parameter minus a positive constant, and the callee returns
 before the call when the parameter is <= 0.
 """
-from . import ir, sym, lin as L, cursorw, guard
+from . import ir, sym, lin as L, cursorw, guard, fieldinv
 from .ir import sk, pp, cval, ASSIGN_OPS
 from .facts import AnalysisBroken
 
@@ -257,6 +257,19 @@ def loop_argument(P, f, head, body, summaries):
             if ok:
                 return "ranking", "%s falls by at least 1 on each of %d paths round the loop and is bounded below (from `%s`)" % (
                     L.show(r), len(backs), txt)
+        # second form: the quantity falls by at least 1 per iteration, only ever moves down inside an iteration, and
+        # every iteration passes the test it was read from, which leaves the loop once the quantity is used up
+        for r, bid, txt in forms:
+            if bid is None:
+                continue
+            r0 = cursorw._ev(r, st0)
+            if r0 is None:
+                continue
+            ok = all((lambda r1: r1 is not None and w.implied(s1, (L.sub(r0, r1)[0], L.sub(r0, r1)[1] - 1)))(cursorw._ev(r, s1)) for s1 in backs)
+            if not ok or not _monotone_down(f, body, r) or not _on_every_cycle(f, head, body, bid) or not _exits_when_used_up(f, body, bid, r):
+                continue
+            return "ranking", "%s falls by at least 1 on each of %d paths round the loop, never rises inside an iteration, and every " \
+                "iteration passes the test `%s`, which leaves the loop when it is used up" % (L.show(r), len(backs), txt)
         why = "no comparison of the loop yields a quantity that falls on every path round it (%d paths, %d candidates)" % (len(backs), len(forms))
     # --- modular countdown: `while (x) { y--; if (y % K == 0) x--; }` with x unsigned: at most K * x iterations
     if backs:
@@ -426,3 +439,110 @@ def _reaches(f, a, b, avoid=None):
         seen.add(x)
         stk.extend(s for s in f.blocks[x].succs if s is not None)
     return False
+
+
+def _monotone_down(f, body, r):
+    """Every write in the loop to a variable of r moves r down (or not at all): x++ / x += c (c >= 0) for variables with
+    a negative coefficient, x-- / x -= c for positive ones; anything else disqualifies."""
+    for bid in body:
+        for e in f.blocks[bid].elems:
+            for x in ir.walk(e):
+                t = None
+                d = None
+                if x.get("k") == "Un" and x["op"] in cursorw.INCDEC:
+                    t, d = pp(sk(x["a"][0])), (1 if "++" in x["op"] else -1)
+                elif x.get("k") == "Bin" and x["op"] in ("+=", "-=") and cval(sk(x["a"][1])) is not None:
+                    t, d = pp(sk(x["a"][0])), (1 if x["op"] == "+=" else -1) * cval(sk(x["a"][1]))
+                elif x.get("k") == "Bin" and x["op"] in ASSIGN_OPS:
+                    t, d = pp(sk(x["a"][0])), None
+                elif x.get("k") == "Decl":
+                    for dd in x["decls"]:
+                        if dd["ref"]["name"] in r[0]:
+                            return False
+                if t is None or t not in r[0]:
+                    continue
+                if d is None:
+                    return False
+                if r[0][t] * d > 0:
+                    return False
+    return True
+
+
+def _first_pass_certain(f, pred, h):
+    """Entering the inner loop at h from block pred, the loop test is certainly true (`k = 0` ... `k < 7`): returns the
+    successor taken, or None when that cannot be told."""
+    hb = f.blocks[h]
+    c = sk(hb.term["cond"]) if hb.term and hb.term.get("cond") is not None else None
+    if c is None or c.get("k") != "Bin" or c["op"] not in ("<", "<=", ">", ">=", "!="):
+        return None
+    v, lim = sk(c["a"][0]), cval(sk(c["a"][1]))
+    if v.get("k") != "Ref" or lim is None:
+        return None
+    for e in hb.elems:                  # nothing but the test itself happens at the head
+        for x in ir.walk(e):
+            if x.get("k") in ("Call", "Decl") or (x.get("k") == "Bin" and x["op"] in ASSIGN_OPS) or \
+                    (x.get("k") == "Un" and x["op"] in cursorw.INCDEC):
+                return None
+    name, start = pp(v), None
+    for e in f.blocks[pred].elems:
+        for x in ir.walk(e):
+            if x.get("k") == "Bin" and x["op"] in ASSIGN_OPS and pp(sk(x["a"][0])) == name:
+                start = cval(sk(x["a"][1])) if x["op"] == "=" else None
+            elif x.get("k") == "Un" and x["op"] in cursorw.INCDEC and pp(sk(x["a"][0])) == name:
+                start = None
+            elif x.get("k") == "Decl":
+                for dd in x["decls"]:
+                    if dd["ref"]["name"] == name:
+                        start = cval(sk(dd["init"])) if dd.get("init") is not None else None
+    if start is None:
+        return None
+    t = {"<": start < lim, "<=": start <= lim, ">": start > lim, ">=": start >= lim, "!=": start != lim}[c["op"]]
+    return hb.succs[0] if t else hb.succs[1]
+
+
+def _on_every_cycle(f, head, body, bid):
+    """No cycle through the loop head avoids block bid.  An inner counting loop entered with a constant start that
+    satisfies its test is known to run its body at least once."""
+    if bid == head:
+        return True
+    keep = {b for b in body if b != bid}
+    inner = {h: b for h, b in fieldinv._loops(f).items() if h != head and h in body}
+
+    def succs(pred, x):
+        if x in inner and pred is not None and pred not in inner[x]:
+            only = _first_pass_certain(f, pred, x)
+            if only is not None:
+                return [only]
+        return [s for s in f.blocks[x].succs if s is not None]
+    seen, stk = set(), [(head, s) for s in f.blocks[head].succs if s in keep]
+    while stk:
+        pred, x = stk.pop()
+        if x == head:
+            return False
+        if (pred if x in inner else None, x) in seen:
+            continue
+        seen.add((pred if x in inner else None, x))
+        stk.extend((x, s) for s in succs(pred, x) if s in keep or s == head)
+    return True
+
+
+def _exits_when_used_up(f, body, bid, r):
+    """The test at block bid compares the two sides r was read from, and the side on which r <= 0 leaves the loop."""
+    b = f.blocks[bid]
+    c = sk(b.term["cond"]) if b.term and b.term.get("cond") is not None else None
+    if c is None or c.get("k") != "Bin" or c["op"] not in ("<", "<=", ">", ">="):
+        return False
+    la, lb = L.lin(c["a"][0]), L.lin(c["a"][1])
+    if la is None or lb is None:
+        return False
+    d = L.sub(lb, la)                    # b - a
+    nd = ({k: -v for k, v in d[0].items()}, -d[1])
+    # which outcome of the test corresponds to r <= 0 ?
+    if r[0] == d[0]:                     # r = (b - a) + const: r <= 0 when a >= b + const: the `a >= b` / `a > b` outcome
+        used_up_true = c["op"] in (">=", ">")
+    elif r[0] == nd[0]:                  # r = (a - b) + const: r <= 0 when a <= b - const
+        used_up_true = c["op"] in ("<=", "<")
+    else:
+        return False
+    exit_edge = b.succs[0] if used_up_true else b.succs[1]
+    return exit_edge is not None and exit_edge not in body
